@@ -70,9 +70,12 @@ extern "C" __attribute__((noinline)) int u_dyn(const DK *bk, const DV *bv, size_
         for (size_t i = 0; i < nops; ++i) {
             if (ops[3 * i] == 0) d.insert_or_assign(ops[3 * i + 1], ops[3 * i + 2]);
             else d.erase(ops[3 * i + 1]);
+#if DMODE == 2 && defined(INV_EACH_STEP)
+            out[8] |= pgm_verif_access::invariants(d);      // after EVERY operation of the history (a stale index may be repaired by a later merge)
+#endif
         }
 #if DMODE == 2
-        out[8] = pgm_verif_access::invariants(d);
+        out[8] |= pgm_verif_access::invariants(d);
 #endif
         auto e = d.end();
 #if DMODE == 0
